@@ -347,7 +347,7 @@ func (m *MemoryBackend) Publish(client *Client, msg *packet.Message, ack Ack) er
 		default:
 		}
 		own, _ := client.Session().(*memorySession)
-		if own != nil && !closing && own.lookupSubscription(msg.Topic) != nil {
+		if own != nil && own.activeClient == client && !closing && own.lookupSubscription(msg.Topic) != nil {
 			ownQueue := own.temporaryQueue
 			if msg.QOS > 0 {
 				ownQueue = own.storedQueue
